@@ -436,7 +436,7 @@ structure Inv (cb : Nat → Value → Bool) (t : Table) : Prop where
   ascending : Ascending t
   sat : ∀ j, j < t.entries.length → Sat cb t j
 
-theorem inv_set (cb : Nat → Value → Bool) (t : Table) (idx : Nat) (v : Value) (hv : v.bits < 2 ^ v.type.bits)
+private theorem inv_set (cb : Nat → Value → Bool) (t : Table) (idx : Nat) (v : Value) (hv : v.bits < 2 ^ v.type.bits)
     (h : Inv cb t) : Inv cb (register_set cb t idx v).2 := by
   obtain ⟨s1, s2, s3⟩ := set_keeps_structure cb t idx v true h.shape h.linked h.ascending
   exact ⟨(set_keeps_layout cb t idx v h.layout).1, s1, s2, s3, set_preserves_sat cb t idx v h.layout hv h.sat⟩
@@ -475,7 +475,7 @@ theorem history_with_block_writes (cb : Nat → Value → Bool) (ops : List Op2)
 /-! ### sanitise -/
 
 /-- one register's constraint survives a typed set of any register (accepted or refused) -/
-theorem set_keeps_sat_at (cb : Nat → Value → Bool) (t : Table) (idx : Nat) (v : Value) (hl : Layout t)
+private theorem set_keeps_sat_at (cb : Nat → Value → Bool) (t : Table) (idx : Nat) (v : Value) (hl : Layout t)
     (hb : v.bits < 2 ^ v.type.bits) (j : Nat) (hj : Sat cb t j) : Sat cb (register_set cb t idx v).2 j := by
   rcases hres : register_set cb t idx v with ⟨⟨code, adr⟩, t'⟩
   by_cases hc : code = .success
@@ -503,18 +503,18 @@ theorem set_keeps_sat_at (cb : Nat → Value → Bool) (t : Table) (idx : Nat) (
 def untouch (t : Table) (i : Nat) : Table :=
   { t with entries := t.entries.modify i fun e => { e with touched := false } }
 
-theorem untouch_get (t : Table) (i j : Nat) (e : Entry) (he : t.entries[j]? = some e) :
+private theorem untouch_get (t : Table) (i j : Nat) (e : Entry) (he : t.entries[j]? = some e) :
     (untouch t i).entries[j]? = some (if i = j then { e with touched := false } else e) := by
   simp only [untouch, List.getElem?_modify, he, Option.map_some]
   by_cases h : i = j <;> simp [h]
 
-theorem untouch_register_get (t : Table) (i j : Nat) : register_get (untouch t i) j = register_get t j := by
+private theorem untouch_register_get (t : Table) (i j : Nat) : register_get (untouch t i) j = register_get t j := by
   simp only [register_get, untouch, List.getElem?_modify]
   cases he : t.entries[j]? with
   | none => simp
   | some e => by_cases h : i = j <;> simp [h] <;> rfl
 
-theorem untouch_sat (cb : Nat → Value → Bool) (t : Table) (i j : Nat) (h : Sat cb t j) : Sat cb (untouch t i) j := by
+private theorem untouch_sat (cb : Nat → Value → Bool) (t : Table) (i j : Nat) (h : Sat cb t j) : Sat cb (untouch t i) j := by
   obtain ⟨e, v, he, hg, hv⟩ := h
   refine ⟨_, v, untouch_get t i j e he, by rw [untouch_register_get]; exact hg, ?_⟩
   rw [validate_congr cb t (untouch t i) e _ v rfl (by split <;> rfl) (by split <;> rfl)]
@@ -531,7 +531,7 @@ structure Struct (t : Table) : Prop where
 
 def Untouched (t : Table) (j : Nat) : Prop := ∀ e, t.entries[j]? = some e → e.touched = false
 
-theorem untouch_struct (t : Table) (i : Nat) (h : Struct t) : Struct (untouch t i) := by
+private theorem untouch_struct (t : Table) (i : Nat) (h : Struct t) : Struct (untouch t i) := by
   have key : ∀ (j : Nat) (e' : Entry), (untouch t i).entries[j]? = some e' → ∃ e : Entry, t.entries[j]? = some e ∧
       e'.area = e.area ∧ e'.offset = e.offset ∧ e'.type = e.type ∧ e'.address = e.address ∧ e'.default = e.default := by
     intro j e' he'
@@ -568,14 +568,14 @@ theorem untouch_struct (t : Table) (i : Nat) (h : Struct t) : Struct (untouch t 
     exact h.defaults e (List.mem_of_getElem? he)
 
 
-theorem set_struct (cb : Nat → Value → Bool) (t : Table) (idx : Nat) (v : Value) (h : Struct t) :
+private theorem set_struct (cb : Nat → Value → Bool) (t : Table) (idx : Nat) (v : Value) (h : Struct t) :
     Struct (register_set cb t idx v).2 := by
   obtain ⟨s1, s2, s3⟩ := set_keeps_structure cb t idx v true h.shape h.linked h.ascending
   obtain ⟨l1, l2⟩ := set_keeps_layout cb t idx v h.layout
   exact ⟨l1, s1, s2, s3, by rw [l2]; exact h.defaults⟩
 
 /-- a get that answers success returns a value, address 0, and the register exists -/
-theorem get_code_success (t : Table) (i : Nat) (h : (register_get t i).1.code = .success) :
+private theorem get_code_success (t : Table) (i : Nat) (h : (register_get t i).1.code = .success) :
     ∃ v e, register_get t i = (⟨.success, 0⟩, some v) ∧ t.entries[i]? = some e := by
   simp only [register_get] at h ⊢
   split at h
@@ -598,7 +598,7 @@ theorem get_code_success (t : Table) (i : Nat) (h : (register_get t i).1.code = 
         · rename_i hok; simp only [hok, ↓reduceIte]; exact ⟨_, e, rfl, rfl⟩
         · simp at h
 
-theorem sane_sat (cb : Nat → Value → Bool) (t : Table) (i : Nat) (a : Nat)
+private theorem sane_sat (cb : Nat → Value → Bool) (t : Table) (i : Nat) (a : Nat)
     (h : reg_entry_sane cb t i = ⟨.success, a⟩) : Sat cb t i := by
   simp only [reg_entry_sane] at h
   split at h
@@ -619,10 +619,10 @@ theorem sane_sat (cb : Nat → Value → Bool) (t : Table) (i : Nat) (a : Nat)
     exact heq 0 v' e' he' hg'.1 hg'.2
 
 
-theorem untouch_entries_length (t : Table) (i : Nat) : (untouch t i).entries.length = t.entries.length := by
+private theorem untouch_entries_length (t : Table) (i : Nat) : (untouch t i).entries.length = t.entries.length := by
   simp [untouch]
 
-theorem untouch_untouched (t : Table) (i j : Nat) (h : j = i ∨ Untouched t j) : Untouched (untouch t i) j := by
+private theorem untouch_untouched (t : Table) (i j : Nat) (h : j = i ∨ Untouched t j) : Untouched (untouch t i) j := by
   intro e' he'
   cases he : t.entries[j]? with
   | none => simp [untouch, List.getElem?_modify, he] at he'
@@ -639,7 +639,7 @@ theorem untouch_untouched (t : Table) (i j : Nat) (h : j = i ∨ Untouched t j) 
 
 /-- the sanitise loop: when it reports success, every register it has passed satisfies its constraint and is
     marked untouched - whatever the storage held before -/
-theorem sanitise_go (cb : Nat → Value → Bool) : ∀ (todo i : Nat) (t : Table), Struct t →
+private theorem sanitise_go (cb : Nat → Value → Bool) : ∀ (todo i : Nat) (t : Table), Struct t →
     i + todo = t.entries.length → (∀ j, j < i → Sat cb t j ∧ Untouched t j) →
     (register_sanitise.go cb todo i t).1.code = .success →
     Struct (register_sanitise.go cb todo i t).2 ∧
@@ -722,5 +722,334 @@ theorem sanitise_restores (cb : Nat → Value → Bool) (t : Table) (hs : Struct
   · rename_i hi
     simp only [hi, ↓reduceIte] at hok
     exact sanitise_go cb t.entries.length 0 t hs (by omega) (fun j hj => absurd hj (by omega)) hok
+
+
+private theorem sat_sane (cb : Nat → Value → Bool) (t : Table) (i : Nat) (h : Sat cb t i) :
+    reg_entry_sane cb t i = ⟨.success, 0⟩ := by
+  obtain ⟨e, v, he, hg, hv⟩ := h
+  simp [reg_entry_sane, hg, he, hv]
+
+/-- on a table in which every register satisfies its constraint sanitise has nothing to repair: it succeeds -/
+private theorem sanitise_go_sane (cb : Nat → Value → Bool) : ∀ (todo i : Nat) (t : Table),
+    (∀ j, j < t.entries.length → Sat cb t j) → i + todo = t.entries.length →
+    (register_sanitise.go cb todo i t).1.code = .success := by
+  intro todo
+  induction todo with
+  | zero => intro i t _ _; simp [register_sanitise.go]
+  | succ todo ih =>
+    intro i t hinv hlen
+    simp only [register_sanitise.go, sat_sane cb t i (hinv i (by omega))]
+    apply ih
+    · intro j hj
+      have hj' : j < t.entries.length := by simpa using hj
+      exact untouch_sat cb t i j (hinv j hj')
+    · simp; omega
+
+theorem sanitise_succeeds (cb : Nat → Value → Bool) (t : Table) (hi : t.initialised = true)
+    (hinv : ∀ j, j < t.entries.length → Sat cb t j) : (register_sanitise cb t).1.code = .success := by
+  simp only [register_sanitise, hi, Bool.not_true, Bool.false_eq_true, ↓reduceIte]
+  exact sanitise_go_sane cb t.entries.length 0 t hinv (by omega)
+
+
+
+/-! ### what sanitise does to the values -/
+
+private theorem untouch_sat_rev (cb : Nat → Value → Bool) (t : Table) (i j : Nat) (h : Sat cb (untouch t i) j) : Sat cb t j := by
+  obtain ⟨e', v, he', hg, hv⟩ := h
+  cases he : t.entries[j]? with
+  | none => simp [untouch, List.getElem?_modify, he] at he'
+  | some e =>
+    rw [untouch_get t i j e he] at he'
+    have hee := Option.some.inj he'
+    refine ⟨e, v, he, by rw [← untouch_register_get t i j]; exact hg, ?_⟩
+    rw [← validate_congr cb t (untouch t i) e e' v rfl (by rw [← hee]; split <;> rfl) (by rw [← hee]; split <;> rfl)]
+    exact hv
+
+private theorem set_sat_rev (cb : Nat → Value → Bool) (t t' : Table) (idx j : Nat) (v : Value) (adr : Nat)
+    (h : register_set cb t idx v = (⟨.success, adr⟩, t')) (hl : Layout t) (hij : idx ≠ j) (hs : Sat cb t' j) : Sat cb t j := by
+  obtain ⟨_, _, _, _, _, _, _, _, _, _, _, ht'⟩ := Ufw.Props.C01.set_success_inv cb t t' idx v true adr h
+  have hent : t'.entries = t.entries := by rw [ht']
+  have hdi : t'.duringInit = t.duringInit := by rw [ht']
+  obtain ⟨e, w, he, hg, hv⟩ := hs
+  refine ⟨e, w, by rw [← hent]; exact he, by rw [← set_other_get cb t t' idx j v true adr h hl hij]; exact hg, ?_⟩
+  simpa [rv_validate, hdi] using hv
+
+/-- the sanitise loop, values: registers already passed are not touched again; a register still ahead that
+    satisfies its constraint keeps what it reads as, one that does not reads as its default afterwards -/
+private theorem sanitise_go_values (cb : Nat → Value → Bool) : ∀ (todo i : Nat) (t : Table), Struct t →
+    i + todo = t.entries.length → (register_sanitise.go cb todo i t).1.code = .success →
+    ∀ j, j < t.entries.length →
+      (j < i → register_get (register_sanitise.go cb todo i t).2 j = register_get t j) ∧
+      (i ≤ j → Sat cb t j → register_get (register_sanitise.go cb todo i t).2 j = register_get t j) ∧
+      (i ≤ j → ¬ Sat cb t j → ∃ e, t.entries[j]? = some e ∧
+        register_get (register_sanitise.go cb todo i t).2 j = (⟨.success, 0⟩, some ⟨e.type, e.default⟩)) := by
+  intro todo
+  induction todo with
+  | zero =>
+    intro i t _ hlen _ j hj
+    exact ⟨fun _ => by simp only [register_sanitise.go], fun h => absurd h (by omega), fun h => absurd h (by omega)⟩
+  | succ todo ih =>
+    intro i t hs hlen hok j hj
+    simp only [register_sanitise.go] at hok ⊢
+    rcases hsane : reg_entry_sane cb t i with ⟨c, a⟩
+    rw [hsane] at hok
+    cases c with
+    | success =>
+      simp only at hok ⊢
+      have hlu := untouch_entries_length t i
+      obtain ⟨r1, r2, r3⟩ := ih (i + 1) (untouch t i) (untouch_struct t i hs) (by rw [hlu]; omega) hok j (by rw [hlu]; exact hj)
+      rw [untouch_register_get] at r1 r2
+      refine ⟨fun h => r1 (by omega), ?_, ?_⟩
+      · intro hij hsat
+        by_cases hji : j = i
+        · exact r1 (by omega)
+        · exact r2 (by omega) (untouch_sat cb t i j hsat)
+      · intro hij hns
+        by_cases hji : j = i
+        · subst hji; exact absurd (sane_sat cb t j a hsane) hns
+        · obtain ⟨e', he', hg⟩ := r3 (by omega) (fun h => hns (untouch_sat_rev cb t i j h))
+          cases he : t.entries[j]? with
+          | none => simp [untouch, List.getElem?_modify, he] at he'
+          | some e =>
+            rw [untouch_get t i j e he] at he'
+            have hee := Option.some.inj he'
+            refine ⟨e, rfl, hg.trans ?_⟩
+            rw [← hee]; split <;> rfl
+    | invalid | range =>
+      simp only at hok ⊢
+      cases he : t.entries[i]? with
+      | none => simp [he, oob] at hok
+      | some e =>
+        simp only [he] at hok ⊢
+        rcases hset : register_set cb t i ⟨e.type, e.default⟩ with ⟨⟨c2, a2⟩, t'⟩
+        rw [hset] at hok
+        cases c2 <;> try (simp at hok)
+        simp only at hok ⊢
+        have hb : (⟨e.type, e.default⟩ : Value).bits < 2 ^ (⟨e.type, e.default⟩ : Value).type.bits :=
+          hs.defaults e (List.mem_of_getElem? he)
+        have hst : Struct t' := by have := set_struct cb t i ⟨e.type, e.default⟩ hs; rw [hset] at this; exact this
+        have hent : t'.entries = t.entries := by
+          have := (set_keeps_layout cb t i ⟨e.type, e.default⟩ hs.layout).2; rw [hset] at this; exact this
+        have hlu := untouch_entries_length t' i
+        obtain ⟨r1, r2, r3⟩ := ih (i + 1) (untouch t' i) (untouch_struct t' i hst) (by rw [hlu, hent]; omega) hok j
+          (by rw [hlu, hent]; exact hj)
+        rw [untouch_register_get] at r1 r2
+        have hns_i : ¬ Sat cb t i := by
+          intro h; have := sat_sane cb t i h; rw [hsane] at this; simp at this
+        refine ⟨?_, ?_, ?_⟩
+        · intro hji
+          exact (r1 (by omega)).trans (set_other_get cb t t' i j ⟨e.type, e.default⟩ true a2 hset hs.layout (by omega))
+        · intro hij hsat
+          by_cases hji : j = i
+          · subst hji; exact absurd hsat hns_i
+          · have h2 := set_keeps_sat_at cb t i ⟨e.type, e.default⟩ hs.layout hb j hsat
+            rw [hset] at h2
+            exact (r2 (by omega) (untouch_sat cb t' i j h2)).trans
+              (set_other_get cb t t' i j ⟨e.type, e.default⟩ true a2 hset hs.layout (fun h => hji h.symm))
+        · intro hij hns
+          by_cases hji : j = i
+          · subst hji
+            exact ⟨e, he, (r1 (by omega)).trans (Ufw.Props.C01.checked_set_get cb t t' j ⟨e.type, e.default⟩ a2 hset hb)⟩
+          · obtain ⟨e', he', hg⟩ := r3 (by omega) (fun h => hns
+              (set_sat_rev cb t t' i j ⟨e.type, e.default⟩ a2 hset hs.layout (fun h => hji h.symm) (untouch_sat_rev cb t' i j h)))
+            cases hej : t.entries[j]? with
+            | none => rw [← hent] at hej; simp [untouch, List.getElem?_modify, hej] at he'
+            | some ej =>
+              rw [untouch_get t' i j ej (by rw [hent]; exact hej)] at he'
+              have hee := Option.some.inj he'
+              refine ⟨ej, rfl, hg.trans ?_⟩
+              rw [← hee]; split <;> rfl
+    | failure | uninitialised | noentry | readonly | ioError => simp at hok
+
+/-- After arbitrary out-of-band corruption: when sanitise reports success, a register whose content decoded and
+    satisfied its constraint reads exactly as before, and every other register reads as its default. -/
+theorem sanitise_values (cb : Nat → Value → Bool) (t : Table) (hs : Struct t)
+    (hok : (register_sanitise cb t).1.code = .success) (j : Nat) (hj : j < t.entries.length) :
+    (Sat cb t j → register_get (register_sanitise cb t).2 j = register_get t j) ∧
+    (¬ Sat cb t j → ∃ e, t.entries[j]? = some e ∧
+      register_get (register_sanitise cb t).2 j = (⟨.success, 0⟩, some ⟨e.type, e.default⟩)) := by
+  simp only [register_sanitise] at hok ⊢
+  split
+  · rename_i hi; simp [hi] at hok
+  · rename_i hi
+    simp only [hi, ↓reduceIte] at hok
+    obtain ⟨_, r2, r3⟩ := sanitise_go_values cb t.entries.length 0 t hs (by omega) hok j hj
+    exact ⟨r2 (by omega), r3 (by omega)⟩
+
+
+private theorem set_keeps_init (cb : Nat → Value → Bool) (t : Table) (idx : Nat) (v : Value) (h : t.initialised = true) :
+    (register_set cb t idx v).2.initialised = true := by
+  rcases hres : register_set cb t idx v with ⟨⟨code, adr⟩, t'⟩
+  by_cases hc : code = .success
+  · subst hc
+    obtain ⟨_, _, _, _, _, _, _, _, _, _, _, ht'⟩ := Ufw.Props.C01.set_success_inv cb t t' idx v true adr hres
+    rw [ht']; exact h
+  · have : (register_set cb t idx v).2 = t := set_refused_unchanged cb t idx v (by rw [hres]; exact hc)
+    rw [hres] at this; simp only at this; rw [this]; exact h
+
+private theorem sanitise_go_init (cb : Nat → Value → Bool) : ∀ (todo i : Nat) (t : Table), t.initialised = true →
+    (register_sanitise.go cb todo i t).2.initialised = true := by
+  intro todo
+  induction todo with
+  | zero => intro i t h; simpa [register_sanitise.go] using h
+  | succ todo ih =>
+    intro i t h
+    simp only [register_sanitise.go]
+    rcases hsane : reg_entry_sane cb t i with ⟨c, a⟩
+    cases c with
+    | success => exact ih _ _ h
+    | invalid | range =>
+      simp only
+      cases he : t.entries[i]? with
+      | none => simpa using h
+      | some e =>
+        simp only
+        have hk := set_keeps_init cb t i ⟨e.type, e.default⟩ h
+        rcases hset : register_set cb t i ⟨e.type, e.default⟩ with ⟨⟨c2, a2⟩, t'⟩
+        rw [hset] at hk
+        cases c2 <;> first | exact ih _ _ hk | exact hk
+    | failure | uninitialised | noentry | readonly | ioError => simpa using h
+
+private theorem sanitise_keeps_init (cb : Nat → Value → Bool) (t : Table) (h : t.initialised = true) :
+    (register_sanitise cb t).2.initialised = true := by
+  simp only [register_sanitise, h, Bool.not_true, Bool.false_eq_true, ↓reduceIte]
+  exact sanitise_go_init cb _ _ t h
+
+/-- every checked operation of the statement -/
+inductive CheckedOp
+  | set (idx : Nat) (v : Value)
+  | bitSet (idx : Nat) (mask : Value)
+  | bitClear (idx : Nat) (mask : Value)
+  | blockWrite (addr : Nat) (buf : List Atom)
+  | sanitise
+
+def CheckedOp.wf : CheckedOp → Prop
+  | .set _ v | .bitSet _ v | .bitClear _ v => v.bits < 2 ^ v.type.bits
+  | _ => True
+
+def apply (cb : Nat → Value → Bool) (t : Table) : CheckedOp → Table
+  | .set idx v => (register_set cb t idx v).2
+  | .bitSet idx m => (register_bit_op cb t idx m true).2
+  | .bitClear idx m => (register_bit_op cb t idx m false).2
+  | .blockWrite addr buf => (register_block_write cb t addr buf).2
+  | .sanitise => (register_sanitise cb t).2
+
+/-- the state `register_init` establishes on a table whose defaults were loaded: structure, initialised,
+    every register satisfying its constraint -/
+structure Good (cb : Nat → Value → Bool) (t : Table) : Prop where
+  struct : Struct t
+  init : t.initialised = true
+  sat : ∀ j, j < t.entries.length → Sat cb t j
+
+private theorem good_set (cb : Nat → Value → Bool) (t : Table) (idx : Nat) (v : Value) (hv : v.bits < 2 ^ v.type.bits)
+    (h : Good cb t) : Good cb (register_set cb t idx v).2 := by
+  refine ⟨set_struct cb t idx v h.struct, ?_, set_preserves_sat cb t idx v h.struct.layout hv h.sat⟩
+  rcases hres : register_set cb t idx v with ⟨⟨code, adr⟩, t'⟩
+  by_cases hc : code = .success
+  · subst hc
+    obtain ⟨_, _, _, _, _, _, _, _, _, _, _, ht'⟩ := Ufw.Props.C01.set_success_inv cb t t' idx v true adr hres
+    rw [ht']; exact h.init
+  · have : (register_set cb t idx v).2 = t := set_refused_unchanged cb t idx v (by rw [hres]; exact hc)
+    rw [hres] at this; simp only at this; rw [this]; exact h.init
+
+/-- THE INVARIANT OF C05: starting from a successfully initialised table in which every register satisfies its
+    constraint, after ANY sequence of checked operations - typed sets, bit sets, bit clears, block writes and
+    sanitise runs, accepted or refused, in any order - every register again decodes and satisfies its constraint. -/
+theorem history_preserves_constraints (cb : Nat → Value → Bool) (ops : List CheckedOp) :
+    ∀ (t : Table), (∀ o ∈ ops, o.wf) → Good cb t → Good cb (ops.foldl (apply cb) t) := by
+  induction ops with
+  | nil => intro t _ h; exact h
+  | cons o os ih =>
+    intro t hw hg
+    simp only [List.foldl_cons]
+    have how := hw o (List.mem_cons_self ..)
+    have hrest : ∀ x ∈ os, x.wf := fun x hx => hw x (List.mem_cons_of_mem _ hx)
+    cases o with
+    | set idx v => exact ih _ hrest (good_set cb t idx v how hg)
+    | bitSet idx m =>
+      rcases bit_op_is_set cb t idx m true how with h | ⟨v, hv, h⟩
+      · simp only [apply, h]; exact ih t hrest hg
+      · simp only [apply, h]; exact ih _ hrest (good_set cb t idx v hv hg)
+    | bitClear idx m =>
+      rcases bit_op_is_set cb t idx m false how with h | ⟨v, hv, h⟩
+      · simp only [apply, h]; exact ih t hrest hg
+      · simp only [apply, h]; exact ih _ hrest (good_set cb t idx v hv hg)
+    | blockWrite addr buf =>
+      simp only [apply]
+      by_cases hok : (register_block_write cb t addr buf).1.code = .success
+      · obtain ⟨b1, b2, b3, b4, b5⟩ :=
+          block_write_preserves_sat cb t addr buf hg.struct.shape hg.struct.linked hg.struct.ascending hg.sat hok
+        refine ih _ hrest ⟨⟨block_write_keeps_layout cb t addr buf hg.struct.shape hg.struct.layout, b1, b2, b3, ?_⟩, ?_,
+          fun j hj => b5 j (by rw [← b4]; exact hj)⟩
+        · -- defaults are not touched by a block write
+          by_cases hne : buf = []
+          · have : (register_block_write cb t addr buf).2 = t := by
+              subst hne; simp only [register_block_write, List.length_nil, ↓reduceIte]; split <;> rfl
+            rw [this]; exact hg.struct.defaults
+          · obtain ⟨_, _, t'', hb, ht'⟩ := Ufw.Props.C02.block_write_success_inv cb t addr buf hg.struct.shape hne hok
+            obtain ⟨_, heq'', _, _⟩ := blockWrite_spec buf.length t addr buf t'' hg.struct.shape hb
+            have hent : t''.entries = t.entries := by rw [heq'']
+            rw [ht']
+            intro e' he'
+            simp only [reg_taint_in_range, hent, List.mem_map] at he'
+            obtain ⟨e, he, rfl⟩ := he'
+            have := hg.struct.defaults e he
+            split <;> simpa using this
+        · by_cases hne : buf = []
+          · have : (register_block_write cb t addr buf).2 = t := by
+              subst hne; simp only [register_block_write, List.length_nil, ↓reduceIte]; split <;> rfl
+            rw [this]; exact hg.init
+          · obtain ⟨_, _, t'', hb, ht'⟩ := Ufw.Props.C02.block_write_success_inv cb t addr buf hg.struct.shape hne hok
+            obtain ⟨_, heq'', _, _⟩ := blockWrite_spec buf.length t addr buf t'' hg.struct.shape hb
+            rw [ht']; simp only [reg_taint_in_range]; rw [heq'']; exact hg.init
+      · rw [block_write_refused_unchanged cb t addr buf hok]; exact ih t hrest hg
+    | sanitise =>
+      simp only [apply]
+      have hok := sanitise_succeeds cb t hg.init hg.sat
+      obtain ⟨s1, s2, s3⟩ := sanitise_restores cb t hg.struct hok
+      refine ih _ hrest ⟨s1, ?_, fun j hj => (s3 j (by rw [← s2]; exact hj)).1⟩
+      exact sanitise_keeps_init cb t hg.init
+
+/-! ### non-vacuity -/
+
+/-- a concrete table in the good state: one area, a u16 register without constraint and a u32 register with a
+    range constraint holding 5 -/
+def goodTable : Table :=
+  { areas := [{ base := 16, size := 4, mem := [7, 0, 5 * 256, 0] }],
+    entries := [{ type := .u16, default := 0, address := 16, check := .trivial, area := 0, offset := 0 },
+                { type := .u32, default := 5, address := 17, check := .range 1 100, area := 0, offset := 1 }],
+    bigEndian := true, initialised := true }
+
+/-- the invariant is satisfiable: `goodTable` is in the good state -/
+theorem goodTable_good : Good (fun _ _ => true) goodTable := by
+  refine ⟨⟨?_, ⟨?_, ?_⟩, ?_, ?_, ?_⟩, rfl, ?_⟩
+  · -- layout
+    intro i j e e' hij h1 h2
+    match i, j with
+    | 0, 0 => exact absurd rfl hij
+    | 0, 1 => simp [goodTable] at h1 h2; subst h1 h2; simp [Apart, RType.size]
+    | 1, 0 => simp [goodTable] at h1 h2; subst h1 h2; simp [Apart, RType.size]
+    | 1, 1 => exact absurd rfl hij
+    | 0, j + 2 => simp [goodTable] at h2
+    | 1, j + 2 => simp [goodTable] at h2
+    | i + 2, _ => simp [goodTable] at h1
+  · intro a ha; simp [goodTable] at ha; subst ha; rfl
+  · intro i j a b hij h1 h2
+    match i, j with
+    | 0, 0 => exact absurd rfl hij
+    | 0, j + 1 => simp [goodTable] at h2
+    | i + 1, _ => simp [goodTable] at h1
+  · intro i e he
+    match i with
+    | 0 => simp [goodTable] at he; subst he; exact ⟨_, rfl, by decide, by decide, by decide⟩
+    | 1 => simp [goodTable] at he; subst he; exact ⟨_, rfl, by decide, by decide, by decide⟩
+    | i + 2 => simp [goodTable] at he
+  · simp [Ascending, goodTable]
+  · intro e he; simp [goodTable] at he; rcases he with rfl | rfl <;> decide
+  · intro j hj
+    match j with
+    | 0 => exact ⟨_, ⟨.u16, 1792⟩, rfl, by decide, by decide⟩
+    | 1 => exact ⟨_, ⟨.u32, 5⟩, rfl, by decide, by decide⟩
+    | j + 2 => simp [goodTable] at hj; omega
 
 end Ufw.Props.C05
